@@ -115,11 +115,13 @@ def run(ctx):
   if not quick:
     mcs += [("MC_Tt.cfg", TIM + ["Idle"]), ("MC_Q1i.cfg", FULL), ("MC_Q1t.cfg", FULL + ["Idle"])]
   # (cfg, adapter params, cap in quick)
-  exs = [("EX_Q1i.cfg", pi, 3000), ("EX_Q1t.cfg", pt, 2500), ("EX_S2i.cfg", pi, 4000), ("EX_S2t.cfg", pt, 2000),
-         ("EX_IO1i.cfg", pi, 3000), ("EX_IO2si.cfg", pi, 2000), ("EX_IO2st.cfg", pt, 1500),
-         ("EX_Ti.cfg", pi, 2000), ("EX_Tt.cfg", pt, 1500),
+  exs = [("EX_Q1i.cfg", pi, 2500), ("EX_Q1t.cfg", pt, 2000), ("EX_S2i.cfg", pi, 3000),
+         ("EX_IO1i.cfg", pi, 2000), ("EX_IO2si.cfg", pi, 1500),
+         ("EX_Ti.cfg", pi, 1500), ("EX_Tt.cfg", pt, 1000),
          # the same hub with use_epoll=True: pox.lib.epoll_select.EpollSelect must behave like select()
-         ("EX_IO1i.cfg", dict(pi, epoll=True), 2000), ("EX_Q1t.cfg", dict(pt, epoll=True), 1500)]
+         ("EX_IO1i.cfg", dict(pi, epoll=True), 1500)]
+  if not quick:
+    exs += [("EX_S2t.cfg", pt, 2000), ("EX_IO2st.cfg", pt, 1500), ("EX_Q1t.cfg", dict(pt, epoll=True), 1500)]
   # (two tasks x all 2-op programs is ~3k set-ups and millions of transitions: covered by simulation instead)
   n = 100 if quick else 2500
   sims = [("SIM_A2i.cfg", n, 14, pi, 0), ("SIM_A2t.cfg", n, 14, pt, 0), ("SIM_B3i.cfg", n, 14, pi, 0),
@@ -130,7 +132,10 @@ def run(ctx):
   # all TLC runs are independent: run them concurrently, then replay
   jobs = [mc_job(ctx, c, cov=a is not None) for c, a in mcs] + [ex_job(ctx, c) for c, _, _ in exs] + \
          [sim_job(ctx, c, num, d, so) for c, num, d, _, so in sims]
-  res = tlc.run_many(jobs, parallel=6)
+  import time as _t
+  _t0 = _t.time()
+  res = tlc.run_many(jobs, parallel=8)
+  ctx.notes["tlc_stage_s"] = round(_t.time() - _t0, 1)
   k = 0
   for c, a in mcs:
     model_check(ctx, c, a, res=res[k])
